@@ -8,6 +8,16 @@ def hexDecode? (s : String) : Option String :=
     let bytes ← hexToBytes? s.toList
     pure (String.ofList (bytes.map fun b => Char.ofNat b))
 
+/-- text as code points: six hex digits per character ("-" = empty) -/
+def textDecode? (s : String) : Option (List Char) :=
+  if s == "-" then some [] else do
+    let bytes ← hexToBytes? s.toList
+    let rec go : List Nat → Option (List Char)
+      | a :: b :: c :: r => (go r).map fun t => Char.ofNat (a * 65536 + b * 256 + c) :: t
+      | [] => some []
+      | _ => none
+    go bytes
+
 def parseHVal? (s : String) : Option HVal :=
   match s.toList with
   | ['n'] => some .null
@@ -85,6 +95,22 @@ def c18 : List String → Option String
       | .error e => pure ("open=" ++ showErr e)
       | .ok m => pure ("open=ok " ++ "|".intercalate (runCalls m calls))
   | ["comment", raw] => do let raw ← hexDecode? raw; pure (showBool (isCommentOrBlank raw.toList))
+  -- the whole file text (code points), split into lines by the model; one token per line
+  | ["runtext", start, text, toks, calls] => do
+      let start ← (if start == "X" then some none else (parseInt? start).map some)
+      let text ← textDecode? text
+      let toks ← (if toks == "." then some [] else (toks.splitOn "|").mapM parseTok?)
+      let raws := splitLines text
+      if raws.length != toks.length then none else
+      let lines := (raws.zip toks).map fun (r, t) => ({ raw := r, tok := t } : Line)
+      let calls ← (if calls == "." then some [] else (calls.splitOn ",").mapM parseCall?)
+      match openModel lines start with
+      | .error e => pure ("open=" ++ showErr e)
+      | .ok m => pure ("open=ok " ++ "|".intercalate (runCalls m calls))
+  | ["commenttext", raw] => do let raw ← textDecode? raw; pure (showBool (isCommentOrBlank raw))
+  | ["splittext", text] => do
+      let text ← textDecode? text
+      pure (toString (splitLines text).length ++ ":" ++ ",".intercalate ((splitLines text).map fun l => toString l.length))
   | _ => none
 
 end Qec.Drv
